@@ -1,0 +1,42 @@
+//go:build verif
+
+package group
+
+// Machine-checked contracts for this package (comment-only; excluded from normal builds).
+//
+// The goroutines started by executeEach are outside the verified subset.  Their effect is summarised by the
+// completion order resp(members, k): the k-th response to arrive.  It is universally quantified (an
+// uninterpreted function constrained only by "every member responds exactly once"), so everything proved below
+// holds for every outcome vector and every completion order.
+
+//@ property C17
+//@ spec func resp(members []Member, k int) memberResponse
+//@ spec func nerr(members []Member, k int) mathint
+//@ axiom respIndex: forall m []Member, k int :: 0 <= k && k < len(m) ==> 0 <= resp(m, k).i && resp(m, k).i < len(m)
+//@ axiom respOnce: forall m []Member, k int, l int :: 0 <= k && k < l && l < len(m) ==> resp(m, k).i != resp(m, l).i
+//@ axiom nerr0: forall m []Member :: nerr(m, 0) == 0
+//@ axiom nerrStep: forall m []Member, k int :: 0 <= k && k < len(m) ==> nerr(m, k+1) == nerr(m, k) + (resp(m, k).err != nil ? 1 : 0)
+//@ pure func noErrBefore(m, k) = forall l int :: 0 <= l && l < k ==> resp(m, l).err == nil
+//@
+//@ func executeEach(ctx, members) (ch)
+//@   ensures [fresh] fresh(ch) && ch != nil && chanRecvd(ch) == 0
+//@   trusts chanTotal(ch) == len(members)
+//@   trusts forall k int :: 0 <= k && k < len(members) ==> chanSeq(ch, k) == resp(members, k)
+//@   modifies nothing
+//@
+//@ func ExecuteUpTo(ctx, allowedErrors, members) (results, err)
+//@   ensures [len] len(results) == len(members)
+//@   ensures [results] forall k int :: 0 <= k && k < len(members) ==> results[resp(members, k).i] == resp(members, k).msg
+//@   ensures [outcome] (err != nil) == (nerr(members, len(members)) > allowedErrors && nerr(members, len(members)) > 0)
+//@   ensures [first-error] forall k int :: 0 <= k && k < len(members) && resp(members, k).err != nil && noErrBefore(members, k) && err != nil ==> err == resp(members, k).err
+//@   ensures [drained] chanRecvd(lastcall(executeEach)) == chanTotal(lastcall(executeEach))
+//@   modifies nothing
+//@   loop 0:
+//@     invariant 0 <= chanRecvd(lastcall(executeEach)) && chanRecvd(lastcall(executeEach)) <= len(members) && chanTotal(lastcall(executeEach)) == len(members)
+//@     invariant errCount == nerr(members, chanRecvd(lastcall(executeEach))) && 0 <= errCount && errCount <= chanRecvd(lastcall(executeEach))
+//@     invariant forall k int :: 0 <= k && k < chanRecvd(lastcall(executeEach)) ==> results[resp(members, k).i] == resp(members, k).msg
+//@     invariant (firstError == nil) == (errCount == 0)
+//@     invariant (firstError == nil) == noErrBefore(members, chanRecvd(lastcall(executeEach)))
+//@     invariant forall k int :: 0 <= k && k < chanRecvd(lastcall(executeEach)) && resp(members, k).err != nil && noErrBefore(members, k) ==> firstError == resp(members, k).err
+//@     invariant len(results) == len(members) && fresh(results)
+//@     invariant errCount > allowedErrors && errCount > 0 ==> cancelled(cancelFunc)
